@@ -454,6 +454,9 @@ impl<'p> Interp<'p> {
         if Self::would_cycle(&v, t, 0) {
             return Err(ErrKind::Undefined("cyclic_table"));
         }
+        if t.borrow().len() > 200 {
+            return Err(ErrKind::Undefined("table_too_big"));
+        }
         let mut t = t.borrow_mut();
         match t.iter().position(|(ek, _)| ek.eq(&k)) {
             Some(i) => t[i].1 = v,
@@ -467,6 +470,9 @@ impl<'p> Interp<'p> {
         let RV::Table(t) = t else { return Err(ErrKind::InvalidArgument) };
         if Self::would_cycle(&v, t, 0) {
             return Err(ErrKind::Undefined("cyclic_table"));
+        }
+        if t.borrow().len() > 200 {
+            return Err(ErrKind::Undefined("table_too_big"));
         }
         let mut t = t.borrow_mut();
         let mut idx = t.len() as i64;
@@ -558,6 +564,9 @@ impl<'p> Interp<'p> {
         };
         match name {
             "log" | "log2" | "log3" => {
+                if self.log.len() > 1500 {
+                    return Err(ErrKind::Undefined("log_too_big"));
+                }
                 self.log.push((name.to_string(), args.iter().map(|a| a.to_mv()).collect()));
                 Ok(RV::Nil)
             }
